@@ -18,7 +18,7 @@ RULE = (
     "oracle on every solve_for_psi_squared call. non-trivial = case with >= 1 answered and >= 1 refused call judged (L1) or "
     ">= 50 calls judged (L2); distinct = distinct spec"
 )
-REQUIRED_COUNTERS = ["spsq_calls_checked", "spsq_answers", "spsq_refusals", "branch_checks"]
+REQUIRED_COUNTERS = ["spsq_calls_checked", "spsq_answers", "spsq_refusals", "branch_checks", "reported_step_checks", "retried_steps_checked"]
 CASE_TIMEOUT = {"quick": 900, "thorough": 3000}
 ASSUMPTIONS = ["numpy long double (80-bit) arithmetic as reference; decision band of 1e-9 of the discriminant's terms accepts either outcome",
                "inputs that overflow/invalid in double precision are outside the property and skipped (counted)"]
@@ -36,7 +36,8 @@ def gen_cases(tier, seed):
         dev = zoo.gen_device(rng, n_terminals=nt, n_holes=int(rng.choice([0, 1])) if not nt else 0, probes=0, size="tiny" if scr else "small")
         o = S.base_options(rng, adaptive=True, steps=60 if scr else 120, screening=scr)
         if k % 3 == 0:
-            o.update(dt_init=0.3, dt_max=1.0)  # forces refusals / retries
+            # proposals far above what the scheme accepts: forces refused attempts followed by successful retries
+            o.update(dt_init=0.05, dt_max=float(rng.choice([0.5, 2.0])), max_solve_retries=25, adaptive_window=int(rng.choice([1, 3])), solve_time=12.0)
         drive = {"A": S.field_spec(rng, dev, o, str(rng.choice(["uniform", "ramp", "zero"])), b=float(rng.choice([0.2, 0.6]))),
                  "currents": S.current_spec(rng, dev, o, "const" if nt else "none"),
                  "epsilon": {"kind": str(rng.choice(["one", "spatial", "time", "const"])), "value": -0.5}}
